@@ -1,5 +1,6 @@
 #![allow(dead_code, unused_variables, unused_imports)]
 mod checks_c03;
+mod checks_c05;
 mod checks_c12;
 mod checks_e1;
 mod checks_http;
@@ -48,6 +49,7 @@ fn engine_shard(id: &str, tier: &str, seed: u64, replay: Option<&serde_json::Val
     }
     match id {
         "C03" => checks_c03::shard_run("C03", tier, seed, replay, shard),
+        "C05" => checks_c05::shard_run(tier, seed, replay_case, shard),
         "C15" | "C20" => checks_http::shard_run_grammar(id, tier, seed, replay_case, shard),
         "C16" => checks_http::shard_run_c16(tier, seed, replay_case, shard),
         "C12" => {
@@ -75,6 +77,7 @@ fn engine_finalize(id: &str, tier: &str, seed: u64, out: ShardOut, is_replay: bo
     }
     match id {
         "C03" => checks_c03::finalize("C03", tier, seed, out, is_replay),
+        "C05" => checks_c05::finalize(out, is_replay),
         "C15" | "C20" => checks_http::finalize_grammar(id, tier, out, is_replay),
         "C16" => checks_http::finalize_c16(out, is_replay),
         "C12" => {
@@ -252,7 +255,10 @@ fn main() {
             }
         }
     };
-    let res = engine_finalize(&id, &tier, seed, merged, is_replay);
+    let mut res = engine_finalize(&id, &tier, seed, merged, is_replay);
+    if !is_replay && matches!(res.verdict, Verdict::Held) && res.coverage["samples"].as_array().map(|a| a.is_empty()).unwrap_or(true) {
+        res.verdict = Verdict::Inconclusive("the run recorded no sample case".into());
+    }
     let wall = t0.elapsed().as_secs_f64();
     let known = evidence::load_known();
     let mut code = 0;
